@@ -457,7 +457,8 @@ export class SchemaPrintingContext {
   }
 
   getRef(name: string): string {
-    return this.refPathTemplate.replace("{name}", name);
+    // (a replacer function: "$$", "$&" ... inside a type name are not replacement patterns)
+    return this.refPathTemplate.replace("{name}", () => name);
   }
 
   hasDefinition(name: string): boolean {
